@@ -622,6 +622,16 @@ func (st *State) Assume(op string, x, y *IntV) bool {
 	if v, known := st.Decide(op, x, y); known {
 		return v
 	}
+	// the bit view of the non-constant side, taken BEFORE the interval refinement below makes the value a constant (the
+	// bit-level refinement further down needs the symbols behind the bits, not the constant they are about to become)
+	var preBits []Bit
+	if op == "==" || op == "!=" {
+		if _, ok := st.ConstOf(y); ok {
+			preBits = st.BitsOf(x)
+		} else if _, ok := st.ConstOf(x); ok {
+			preBits = st.BitsOf(y)
+		}
+	}
 	tx, ty := st.TermOf(x), st.TermOf(y)
 	d := termAdd(tx, ty, -1) // x - y
 	// single-symbol refinement: coef*s + c  op 0
@@ -719,6 +729,58 @@ func (st *State) Assume(op string, x, y *IntV) bool {
 			}
 		}
 	}
+	// a linear equality over several symbols with bounded ranges (a big-endian value 256*h0 + h1 compared with a small
+	// constant): each symbol is bounded by what the others leave over — c_i*s_i = -(c0 + sum_{j != i} c_j*s_j)
+	if op == "==" && len(d.Syms) >= 2 && len(d.Syms) <= 4 {
+		small := true
+		for _, sy := range d.Syms {
+			l, h := st.SymRange(sy)
+			if l < -(1<<40) || h > 1<<40 {
+				small = false
+			}
+		}
+		for _, cf := range d.Coefs {
+			if cf > 1<<20 || cf < -(1<<20) || cf == 0 {
+				small = false
+			}
+		}
+		for round := 0; small && round < 3; round++ {
+			for i, si := range d.Syms {
+				restLo, restHi := d.C, d.C
+				for j, sj := range d.Syms {
+					if j == i {
+						continue
+					}
+					l, h := st.SymRange(sj)
+					a, b := d.Coefs[j]*l, d.Coefs[j]*h
+					if a > b {
+						a, b = b, a
+					}
+					restLo += a
+					restHi += b
+				}
+				// c_i * s_i in [-restHi, -restLo]
+				lo, hi := -restHi, -restLo
+				ci := d.Coefs[i]
+				if ci < 0 {
+					lo, hi, ci = -hi, -lo, -ci
+				}
+				// s_i in [ceil(lo/ci), floor(hi/ci)]
+				cl := lo / ci
+				if lo%ci != 0 && lo > 0 {
+					cl++
+				}
+				fh := hi / ci
+				if hi%ci != 0 && hi < 0 {
+					fh--
+				}
+				l, h := st.SymRange(si)
+				if cl > l || fh < h {
+					st.refineSym(si, max64(l, cl), min64(h, fh))
+				}
+			}
+		}
+	}
 	// linear facts
 	switch op {
 	case "<=":
@@ -745,6 +807,9 @@ func (st *State) Assume(op string, x, y *IntV) bool {
 		}
 		if other != nil {
 			bs := st.BitsOf(other)
+			if preBits != nil && len(preBits) == len(bs) {
+				bs = preBits
+			}
 			if op == "==" {
 				for i, b := range bs {
 					want := (uint64(cv)>>uint(i))&1 == 1
